@@ -23,7 +23,8 @@ Inductive wkind := WErr | WTimeout.
 Record hinfo := mkHx {
   hid : nat;        (* the handler in charge now: loopReceive and quit read s.rh each time they need it *)
   exit_h : nat;     (* the handler whose OnExit was called (meaningful once the exit ran) *)
-  amb : bool        (* ghost: UpdateHandler was called when something that can end the session had already been issued *)
+  amb : bool;       (* ghost: UpdateHandler was called when something that can end the session had already been issued *)
+  picked : bool     (* quit has read s.rh and is inside (or past) the exit callback: the rest of quit follows *)
 }.
 
 Record sess := mkS {
@@ -52,7 +53,9 @@ Inductive act :=
 | SetHandler (h : nat)             (* Session.UpdateHandler *)
 | PeerClose | PeerRead | PeerByte
 | RecvFault (k : rkind) | WriteFault (k : wkind)
-| SendStep | SendLost | RecvEnd.
+| SendStep | SendLost | RecvEnd
+| Pick.                           (* the leaving loop, inside exitOnce, reads s.rh and calls that handler's OnExit; the callback may
+                                      take its time: until it returns the count, the queue and the connection are as before *)
 
 Inductive label :=
 | Start (i : nat) (t : transport) (reads : bool) (h : nat)   (* NewSession [+ UpdateHandler h when h > 0] + Start *)
@@ -100,11 +103,19 @@ Definition quit (s : sess) : sess * bool :=
   if exited s then (s, false)
   else (mkS (tr s) (started s) (q s) true false (sendl s) (recvl s) true (S (onexit s)) (wfail s) (rcause s)
             (peer_open s) (peer_reads s) (rcvd s) (inbox s) (accepted s) (clean s) (lclosed s) (wsend s)
-            (mkHx (hid (hx s)) (hid (hx s)) (amb (hx s))), true).      (* s.rh, or the manager's handler, as it is at this moment *)
+            (mkHx (hid (hx s)) (if picked (hx s) then exit_h (hx s) else hid (hx s)) (amb (hx s)) true), true).
 
 (* a loop leaves through its deferred quit *)
 Definition leave_send (s : sess) : option (sess * bool) := let '(s1, d) := quit s in Some (set_sendl s1 false, d).
 Definition leave_recv (s : sess) : option (sess * bool) := let '(s1, d) := quit s in Some (set_recvl s1 false, d).
+
+(* one of the loops has reached the point where it returns (its deferred quit is next) *)
+Definition can_leave (s : sess) : bool :=
+  (recvl s && (rcause s || negb (copen s)))
+  || (sendl s && match q s with
+                 | [] => qclosed s
+                 | x :: _ => negb (is_nil x) && (negb (copen s) || wfail s || negb (peer_open s))
+                 end).
 
 Definition sess_step (s : sess) (a : act) : option (sess * bool) :=
   match a with
@@ -117,7 +128,7 @@ Definition sess_step (s : sess) (a : act) : option (sess * bool) :=
   | LocalClose => Some (set_lclosed (set_qclosed s true) true, false)  (* sendQ.Close *)
   | StartAgain => Some (s, false)
   | SetHandler h =>                                 (* s.rh = rh : a plain store, whatever state the session is in *)
-      Some (set_hx s (mkHx h (exit_h (hx s)) (amb (hx s) || rcause s || lclosed s || wfail s)), false)
+      Some (set_hx s (mkHx h (exit_h (hx s)) (amb (hx s) || rcause s || lclosed s || wfail s) (picked (hx s))), false)
   | PeerClose => if peer_open s then Some (set_clean (set_rcause (set_peer_open s false) true) false, false) else None
   | PeerRead => if peer_open s && negb (peer_reads s) then Some (set_peer_reads s true, false) else None
   | PeerByte =>                                     (* the peer writes one ordinary byte *)
@@ -151,12 +162,15 @@ Definition sess_step (s : sess) (a : act) : option (sess * bool) :=
       end
   | RecvEnd =>                                      (* loopReceive: deadline / read / handler failed or panicked *)
       if recvl s && (rcause s || negb (copen s)) then leave_recv s else None
+  | Pick =>                                         (* only a loop that is about to leave gets into quit *)
+      if negb (picked (hx s)) && negb (exited s) && can_leave s
+      then Some (set_hx s (mkHx (hid (hx s)) (hid (hx s)) (amb (hx s)) true), false) else None
   end.
 
 Definition fresh (t : transport) (reads : bool) (h : nat) : sess :=
-  mkS t true [] false true true true false 0%nat false false true reads 0%nat [] [] true false false (mkHx h 0%nat false).
+  mkS t true [] false true true true false 0%nat false false true reads 0%nat [] [] true false false (mkHx h 0%nat false false).
 Definition rejected : sess :=
-  mkS Tcp false [] false false false false false 0%nat false false true true 0%nat [] [] true false false (mkHx 0%nat 0%nat false).
+  mkS Tcp false [] false false false false false 0%nat false false true true 0%nat [] [] true false false (mkHx 0%nat 0%nat false false).
 
 Fixpoint upd {A} (i : nat) (x : A) (l : list A) : list A :=
   match l, i with
@@ -212,13 +226,14 @@ Fixpoint run (t : st) (ls : list label) : option st :=
 Definition init_al (r : nat) : aloopst := mkAL r true 0%nat false false.
 Definition init (m c0 : Z) (r : nat) : st := mkSt m c0 [] 0 (init_al r).
 
-Definition internal_act (a : act) : bool := match a with SendStep | SendLost | RecvEnd => true | _ => false end.
+Definition internal_act (a : act) : bool := match a with SendStep | SendLost | RecvEnd | Pick => true | _ => false end.
 Definition internal (l : label) : bool := match l with On _ a => internal_act a | Accept _ | AcceptFail => true | _ => false end.
 
 (* nothing the session's own goroutines could do next *)
 Definition none_opt {A} (o : option A) : bool := match o with None => true | Some _ => false end.
 Definition quiet (s : sess) : bool :=
   negb (started s) || (none_opt (sess_step s SendStep) && none_opt (sess_step s SendLost) && none_opt (sess_step s RecvEnd)).
+(* (Pick needs can_leave, i.e. SendStep or RecvEnd enabled: a quiet session cannot Pick either, lemma quiet_no_pick) *)
 (* a connection can only keep waiting when the accept loop is gone *)
 Definition stable (t : st) : bool := (Nat.eqb (pend t) 0 || negb (aloop (al t))) && forallb quiet (ss t).
 
